@@ -891,6 +891,9 @@ class Gen(object):
     self.called.append(info)
     self.note('stmt:local_call')
     args = [self.expr(fn, k, '*', max(0, d - 1)) for (_, k, _) in info.params]
+    if args and self.chance(15):
+      self.note('has:keyword_call')
+      args = ['%s=%s' % (p[0], a) for p, a in zip(info.params, args)]
     return '%s(%s)' % (info.name, ', '.join(args))
 
   def kexpr(self, fn, kind, d):
@@ -1065,6 +1068,8 @@ class Gen(object):
         return self.uexpr(fn, v.kind, d, True)
       return self.kexpr(fn, v.kind, d)
     if v.kn == 'U':
+      if self.want('no_unknown_store_to_typed_name', 15):
+        return self.kexpr(fn, v.kind, d)
       return self.uexpr(fn, v.kind, d, True)
     return None
 
@@ -1319,6 +1324,14 @@ class Gen(object):
     fn.bound.add(g.name)
     return [head] + ['  ' + l for l in body], False
 
+  def stmt_funcdef_in_block(self, fn):
+    """A local function defined inside a branch / loop body, usually called right there."""
+    self.note('has:def_in_nested_block')
+    lines, _ = self.stmt_funcdef(fn)
+    if self.chance(75):
+      lines = lines + self.stmt_call(fn, 1, fn.funcs[lines[0].split('(')[0][4:]])[0]
+    return lines, False
+
   def finish(self, fn):
     """Pending calls of never-called local functions, then the final return."""
     lines = []
@@ -1411,6 +1424,8 @@ class Gen(object):
                (2, lambda: self.stmt_for(fn, depth))]
     if top and fn.level < 2 and self.nfn < self.max_fns:
       opts.append((4 if fn.level == 0 else 2, lambda: self.stmt_funcdef(fn)))
+    elif depth == 1 and fn.level < 2 and self.nfn < self.max_fns:
+      opts.append((1, lambda: self.stmt_funcdef_in_block(fn)))
     if self.callable_fns(fn):
       opts.append((4, lambda: self.stmt_call(fn, 2)))
     if fn.funcs:
